@@ -65,6 +65,22 @@ func (w *World) Canon(sat time.Duration) string {
 	for _, k := range fk {
 		fmt.Fprintf(&sb, "F[%s=%s]\n", k, c.sym(w.Truth.Flags[k]))
 	}
+	tk := make([]string, 0, len(w.Truth.Times))
+	for k := range w.Truth.Times {
+		tk = append(tk, k)
+	}
+	sort.Strings(tk)
+	for _, k := range tk {
+		fmt.Fprintf(&sb, "X[%s=%s]\n", k, c.tm(w.Truth.Times[k]))
+	}
+	ik := make([]string, 0, len(w.Truth.Ints))
+	for k := range w.Truth.Ints {
+		ik = append(ik, k)
+	}
+	sort.Strings(ik)
+	for _, k := range ik {
+		fmt.Fprintf(&sb, "I[%s=%d]\n", k, w.Truth.Ints[k])
+	}
 	return c.rename(sb.String())
 }
 
